@@ -36,6 +36,7 @@ for f in mutants/*.patch; do
   run "$b" "/verif/$f" $(props_for "$b")
 done
 for d in seeded/*/; do
+  [ -n "${MUTANTS_ONLY:-}" ] && continue
   id=$(basename "$d")
   [ -n "$PAT" ] && [[ "seeded-$id" != *$PAT* ]] && continue
   [ -f "$d/patch.diff" ] || continue
@@ -44,5 +45,5 @@ for d in seeded/*/; do
   run "seeded/$id" "/verif/$d/patch.diff" $prop $extra
 done
 { echo "# Mutant and seeded-change runs (tools/selftest.sh, quick tier, seed ${VERIF_SEED:-0})"; echo; echo "| change | check | result | first finding |"; echo "|---|---|---|---|"; sort "$TMPO"; } > "$OUT.new"
-if [ -z "$PAT" ]; then mv "$OUT.new" "$OUT"; else cat "$OUT.new"; rm -f "$OUT.new"; fi
+if [ -n "${RESULT_FILE:-}" ]; then mv "$OUT.new" "$RESULT_FILE"; elif [ -z "$PAT" ]; then mv "$OUT.new" "$OUT"; else cat "$OUT.new"; rm -f "$OUT.new"; fi
 rm -f "$TMPO"
